@@ -387,7 +387,11 @@ def finish(pid, evid, violations, known_lines, t0):
     return 0
 
 def replay(pid, path):
-    obj = json.load(open(path))
+    if path.endswith(".scn"):
+        # a bare scenario file (corpus/, findings/): replay it as it is
+        obj = {"scenario": open(path).read()}
+    else:
+        obj = json.load(open(path))
     if "scenario" not in obj:
         print(json.dumps(obj, indent=1)[:3000])
         return 0
